@@ -140,8 +140,9 @@ static void part_a(report& r)
     for (sz c : {sz(1), sz(2), sz(3), sz(7), sz(12), sz(13), sz(14), sz(30)}) for (int wp = 0; wp != 4; ++wp) cfgs.push_back({2, c, wp});
     for (auto const& c : cfgs)
     for (int integrand = 0; integrand != 4; ++integrand)
-    for (T target : {T(0), T(0.12L)})
+    for (T target : {T(0), T(0.12L), T(-1)})      // -1: no target, and the second iteration is asked for zero calls
     {
+        if (target < T() && c.kind == 2 && c.channels > 3) continue;
         std::string const id = tn + " A kind=" + std::to_string(c.kind) + " channels=" + std::to_string(c.channels) + " weights=" + std::to_string(c.wp) + " integrand=" + std::to_string(integrand)
             + " target=" + vf::dec(target);
         if (!r.want(id)) continue;
@@ -151,7 +152,7 @@ static void part_a(report& r)
         bool threw = false;
         for (int m = 0; m != 4 && !threw; ++m)
         {
-            try { outs.push_back(run_serial<T>(c.kind, c.channels, c.wp, m, calls, target)); }
+            try { outs.push_back(run_serial<T>(c.kind, c.channels, c.wp, m, target < T() ? std::vector<sz>{30, 0, 20} : calls, target < T() ? T() : target)); }
             catch (std::exception const& e) { r.violate("reporting-threw", id, id + " mode " + std::to_string(m) + ": exception " + e.what()); threw = true; }
         }
         if (threw) continue;
@@ -160,7 +161,7 @@ static void part_a(report& r)
             if (outs[m].text != outs[0].text) { r.violate("mode-changes-result", id, id + ": final checkpoint of mode " + std::to_string(m) + " differs from the silent run"); break; }
             if (outs[m].seen != outs[0].seen) { r.violate("mode-changes-result", id, id + ": the checkpoints handed to the callback in mode " + std::to_string(m) + " differ from the silent run"); break; }
         }
-        if (target == T() && outs[0].seen.size() != calls.size()) r.violate("mode-changes-result", id, id + ": silent run performed " + std::to_string(outs[0].seen.size()) + " iterations");
+        if (target <= T() && outs[0].seen.size() != calls.size()) r.violate("mode-changes-result", id, id + ": silent run performed " + std::to_string(outs[0].seen.size()) + " iterations");
         r.outcome("iterations performed", outs[0].seen.size());
         for (int m = 0; m != 4; ++m)
         {
